@@ -18,6 +18,7 @@ import (
 	"github.com/dave/dst/decorator/resolver/goast"
 	"github.com/dave/dst/decorator/resolver/gotypes"
 	"github.com/dave/dst/decorator/resolver/simple"
+	"golang.org/x/tools/go/packages"
 	"pgregory.net/rapid"
 
 	"verif/internal/gen"
@@ -148,6 +149,16 @@ func check(t h.TB, c Case) {
 			h.Fail(t, sub, c, "gotypes: DecorateFile(%s): %v", n, err)
 		}
 		judge(t, sub, c, "gotypes", dec, ck, e, n)
+	}
+	// the constructor for a loaded package: go/packages gives test variants an ID that differs from
+	// the package path ("p [p.test]"); the local path is the package path
+	pdec := decorator.NewDecoratorFromPackage(&packages.Package{ID: c.RootPath + " [" + c.RootPath + ".test]", PkgPath: c.RootPath, Fset: ck.Fset, TypesInfo: ck.Info})
+	for _, n := range names {
+		h.Guard(t, sub, c, func() { _, err = pdec.DecorateFile(ck.Files[n]) })
+		if err != nil {
+			h.Fail(t, sub, c, "NewDecoratorFromPackage: DecorateFile(%s): %v", n, err)
+		}
+		judge(t, sub, c, "NewDecoratorFromPackage", pdec, ck, e, n)
 	}
 	// syntax-only resolver with accurate names; files are re-parsed so that nothing is shared
 	accurate := simple.New(p.Names)
